@@ -64,6 +64,31 @@ Fixpoint last_opt {A} (l : list A) : option A := match l with [] => None | [x] =
 Fixpoint replace_last {A} (l : list A) (x : A) : list A := match l with [] => [] | [_] => [x] | y :: r => y :: replace_last r x end.
 Fixpoint remove_nth {A} (n : nat) (l : list A) : list A := match l with [] => [] | x :: r => match n with O => r | S n' => x :: remove_nth n' r end end.
 
+(* the list surgery of cabd_merge on the two chains: None = the model cannot follow, Some None = refused (DATAFORMAT) *)
+Definition join_chains (cl cr : chain) : option (option chain) :=
+  match last_opt (ch_folders cl), ch_folders cr with
+  | Some lfol, rfol :: rfols =>
+    match sf_mnext lfol, sf_mprev rfol with
+    | None, None => Some (Some (mkCh (ch_cabs cl ++ ch_cabs cr) (ch_folders cl ++ ch_folders cr) (ch_files cl ++ ch_files cr)))
+    | _, _ =>
+      match can_merge lfol rfol (ch_files cl) (ch_files cr) with
+      | None => None
+      | Some false => Some None
+      | Some true =>
+        let keep_next := match sf_mnext rfol with
+                         | None => true
+                         | Some fidn => match find (fun f => oid_eqb (sfi_id f) fidn) (ch_files cr) with
+                                        | Some f => negb (oid_eqb (sfi_folder f) (sf_id rfol)) | None => true end
+                         end in
+        let lfol' := mkSF (sf_id lfol) (sf_comp lfol) ((sf_nblocks lfol + sf_nblocks rfol + M32 - 1) mod M32) (sf_parts lfol ++ sf_parts rfol)
+                          (sf_mprev lfol) (if keep_next then sf_mnext rfol else sf_mnext lfol) in
+        Some (Some (mkCh (ch_cabs cl ++ ch_cabs cr) (replace_last (ch_folders cl) lfol' ++ rfols)
+                         (filter (fun f => negb (oid_eqb (sfi_folder f) (sf_id rfol))) (ch_files cl ++ ch_files cr))))
+      end
+    end
+  | _, _ => None
+  end.
+
 (* cabd_merge(lcab, rcab) on cabinet numbers: (status, set) *)
 Definition merge (s : sset) (l r : option N) : N * sset :=
   match l, r with
@@ -77,37 +102,14 @@ Definition merge (s : sset) (l r : option N) : N * sset :=
         if negb (match last_opt (ch_cabs cl) with Some x => x =? l | None => false end) then (MSPACK_ERR_ARGS, s) else
         if negb (match ch_cabs cr with x :: _ => x =? r | [] => false end) then (MSPACK_ERR_ARGS, s) else
         if il =? ir then (MSPACK_ERR_ARGS, s) else
-        match last_opt (ch_folders cl), ch_folders cr with
-        | Some lfol, rfol :: rfols =>
-          let joined : option (option chain) :=
-            match sf_mnext lfol, sf_mprev rfol with
-            | None, None => Some (Some (mkCh (ch_cabs cl ++ ch_cabs cr) (ch_folders cl ++ ch_folders cr) (ch_files cl ++ ch_files cr)))
-            | _, _ =>
-              match can_merge lfol rfol (ch_files cl) (ch_files cr) with
-              | None => None
-              | Some false => Some None
-              | Some true =>
-              let keep_next := match sf_mnext rfol with
-                               | None => true
-                               | Some fidn => match find (fun f => oid_eqb (sfi_id f) fidn) (ch_files cr) with
-                                              | Some f => negb (oid_eqb (sfi_folder f) (sf_id rfol)) | None => true end
-                               end in
-              let lfol' := mkSF (sf_id lfol) (sf_comp lfol) ((sf_nblocks lfol + sf_nblocks rfol + M32 - 1) mod M32) (sf_parts lfol ++ sf_parts rfol)
-                                (sf_mprev lfol) (if keep_next then sf_mnext rfol else sf_mnext lfol) in
-              Some (Some (mkCh (ch_cabs cl ++ ch_cabs cr) (replace_last (ch_folders cl) lfol' ++ rfols)
-                               (filter (fun f => negb (oid_eqb (sfi_folder f) (sf_id rfol))) (ch_files cl ++ ch_files cr))))
-              end
-            end in
-          match joined with
-          | None => (UNMODELLED, s)
-          | Some None => (MSPACK_ERR_DATAFORMAT, s)
-          | Some (Some ch) =>
-            let lo := N.min il ir in let hi := N.max il ir in
-            let chains1 := remove_nth (N.to_nat hi) (st_chains s) in
-            let chains2 := firstn (N.to_nat lo) chains1 ++ ch :: skipn (S (N.to_nat lo)) chains1 in
-            (MSPACK_ERR_OK, mkSet (st_files s) (st_cabs s) chains2)
-          end
-        | _, _ => (UNMODELLED, s)
+        match join_chains cl cr with
+        | None => (UNMODELLED, s)
+        | Some None => (MSPACK_ERR_DATAFORMAT, s)
+        | Some (Some ch) =>
+          let lo := N.min il ir in let hi := N.max il ir in
+          let chains1 := remove_nth (N.to_nat hi) (st_chains s) in
+          let chains2 := firstn (N.to_nat lo) chains1 ++ ch :: skipn (S (N.to_nat lo)) chains1 in
+          (MSPACK_ERR_OK, mkSet (st_files s) (st_cabs s) chains2)
         end
       | _, _ => (MSPACK_ERR_ARGS, s)
       end
